@@ -1,6 +1,7 @@
 package harness
 
 import (
+	"bytes"
 	"bufio"
 	"fmt"
 	"os"
@@ -423,6 +424,19 @@ func TraceChild(self, script, root, traceOut string) error {
 		self, "-test.run", "^TestFSDriverChild$", "-test.count=1")
 	cmd.Env = append(os.Environ(), "VERIF_FS_SCRIPT="+script, "VERIF_FS_DIR="+root)
 	out, err := cmd.CombinedOutput()
+	for attempt := 0; err != nil && attempt < 3 && bytes.Contains(out, []byte("strace: ptrace(")); attempt++ {
+		// the tracer itself failed (seen under load when the tracee exits: "ptrace(PTRACE_LISTEN, ...):
+		// Input/output error", exit status 1 although the script passed): not an observation about the
+		// code under test. Start over on an empty directory.
+		os.RemoveAll(root)
+		os.MkdirAll(root, 0o777)
+		os.Remove(traceOut)
+		cmd = exec.Command("strace", "-f", "-y", "-xx", "-s", "4194304", "-o", traceOut,
+			"-e", "trace=openat,read,write,pwrite64,lseek,ftruncate,rename,renameat,renameat2,unlink,unlinkat,rmdir,mkdir,mkdirat,fsync,fdatasync",
+			self, "-test.run", "^TestFSDriverChild$", "-test.count=1")
+		cmd.Env = append(os.Environ(), "VERIF_FS_SCRIPT="+script, "VERIF_FS_DIR="+root)
+		out, err = cmd.CombinedOutput()
+	}
 	if err != nil {
 		return fmt.Errorf("fs driver child failed: %v: %s", err, out)
 	}
